@@ -311,6 +311,7 @@ def c02(ctx, case, io):
                 sess[k] = dict(repo=repo, data=b"")
             elif status == 201 and st["digest"] and real_hash_ok(st["digest"], st["body"]):
                 blobs[(repo, st["digest"])] = st["body"]
+                stored_at[(repo, st["digest"])] = k          # acknowledged now: stored (again) now
             elif status == 201 and st["mount"] and st["frm"]:
                 src = blobs.get((st["frm"], st["mount"]))
                 if src is not None:
@@ -325,6 +326,7 @@ def c02(ctx, case, io):
                     total = s["data"] + st["body"]
                     if real_hash_ok(st["digest"], total):
                         blobs[(repo, st["digest"])] = total
+                        stored_at[(repo, st["digest"])] = k
         elif kind == "mput":
             if len(st["body"]) > limit and status == 201:
                 ctx.violation("manifest of %d bytes accepted with limit %d (acknowledged digest %s)" % (len(st["body"]), limit, hdr(res, "Docker-Content-Digest")[:19]),
@@ -339,6 +341,7 @@ def c02(ctx, case, io):
                     prev = mans.get((repo, d))
                     mans[(repo, d)] = (body, mt, (prev[2] if prev else set()) | {mt})
                     blobs[(repo, d)] = body
+                    stored_at[(repo, d)] = k
                     if body in views and kind_of_mt(mt or "") == "index":
                         for cd in views[body]["manifests"]:
                             was_child.add((repo, cd["dig"]))
@@ -396,6 +399,21 @@ def c02(ctx, case, io):
                                     work.append(x_["dig"])
                                 else:
                                     keep.add((r0, x_["dig"]))
+                    # ... and the referrers of what stays (every policy keeps the referrers of a subject it retains), with what they name
+                    grew = True
+                    while grew:
+                        grew = False
+                        for (r_, d_), ent in list(mans.items()):
+                            v_ = views.get(ent[0])
+                            if r_ != r0 or (r_, d_) in keep or not v_ or not v_.get("subject") or kind_of_mt(ent[1] or "") != "image":
+                                continue
+                            if (r0, v_["subject"]["dig"]) in keep and (r0, v_["subject"]["dig"]) in mans:
+                                keep.add((r_, d_))
+                                if v_.get("config"):
+                                    keep.add((r0, v_["config"]["dig"]))
+                                for x_ in v_.get("layers") or []:
+                                    keep.add((r0, x_["dig"]))
+                                grew = True
                     if dflt(pol.get("grace_ms"), 3600000) > 0:
                         # ... and what became present after the repository's content was last made old: uploaded within the grace period
                         keep |= {key_ for key_ in cur_keys if key_[0] == r0 and stored_at.get(key_, -1) > aged_at.get(r0, -1)}
